@@ -586,8 +586,13 @@ package core
 // decoding a response on the client: whatever the server sent (the count of a result list is any
 // validated count, the bytes are arbitrary), no index into the caller's declared result types or
 // into the result slice can fail — a panic here would be in the caller's goroutine (C04, C11)
+// (assumed) dictionary helpers touch dictionaries only
 //@ func NewDict
-//@   havoc
+//@   nopanic
+//@   ensures result != nil
+//@ iface Dict.CopyTo(self, dict)
+//@   nopanic
+//@   modifies ghost.dict_has[*], ghost.dict_int[*]
 //@ func (*ClientContext).ResponseHeaders
 //@   nopanic
 
